@@ -85,4 +85,9 @@ BUILT = {
   level='exploration',
   text='2280 integer constant spellings (4 bases x 23 suffixes x threshold magnitudes) and every Unicode code point are covered exhaustively; string and character literals of all five prefixes with raw UTF-8, every escape form, UCNs, escaped backslashes, concatenation and prefix mixes are generated with a Python encoder as model and compared with gcc and clang; every generated program must print the same after inserting a BOM, CR/LF line ends and backslash-newlines at arbitrary byte positions.',
   note='finite sub-spaces (integer spellings for the chosen magnitudes, unicode.c over all code points) are exhaustive; literal contents are sampled'),
+ 'C12': dict(
+  technique='property-based differential/metamorphic testing between bootstrap stages: stage1 (host-built) vs stage2 (self-built) on Hypothesis-generated (input, option set) pairs, stage1 vs itself under setarch -R and a padded environment, and exhaustive stage2 == stage3 on the compiler sources',
+  level='exploration',
+  text='Three stages are built from the tree under test and run as ./chibicc from directories with identical contents. Inputs from the compiler sources, repository tests, nine program generators, two preprocessor generators and the C13 mutator, under 16 option shapes (-S/-E/-c/-fPIC/-f(no-)common/-D/-U/-I/-include/-idirafter/-M family): exit status, stdout, stderr and every output file must be byte-identical between stage1 and stage2 and between two runs of stage1; stage2 and stage3 must emit identical assembly for all nine sources.',
+  note='equality is observed on sampled inputs, not derived; object files are compared after stripping debug sections (the assembler records its working directory); signal deaths are skipped (C13 territory)'),
 }
